@@ -220,7 +220,7 @@ Check(props, layout, keys, pre, physPre, outPre, mon, e, post, ev, rep) ==
 CheckReleaseAll(props, outPre, post, ev) ==
   LET fo == FoldEv([out |-> outPre, bad |-> FALSE], ev) IN
   [v |-> (IF "C19" \in props THEN Tag(fo.bad, "C19-releaseall") \cup Tag(fo.out # SeqSet(post.pass) \cup SeqSet(post.mapped), "C19-book-releaseall") ELSE {})
-         \cup (IF "C06" \in props \/ "C01" \in props THEN Tag(fo.out # {}, "C06-held-after-releaseall") ELSE {})
+         \cup (IF "C06" \in props THEN Tag(fo.out # {}, "C06-held-after-releaseall") ELSE {})
          \cup (IF "C02" \in props THEN Tag(PressedIn(ev) # {}, "C02c-releaseall") ELSE {}),
    a |-> Tag(ev # <<>>, "RA-events")]
 
